@@ -492,7 +492,9 @@ def main():
     for s, rs in sorted(failed.items()):
         bad = sorted([x for x in rs if x['status'] != 'unsat'], key=lambda x: (x.get('solver') == 'skipped', x['status'] != 'sat'))[0]
         is_known = any(f['obligation'] == s for f in kf)
-        if base and s not in base and not a.write_baseline and not is_known:
+        definite = (bad.get('kind') == 'discipline' and bad['status'] == 'sat'
+                    and s not in set(baseline.get(pid + '!unclaimed', [])))
+        if base and s not in base and not a.write_baseline and not is_known and not definite:
             # never passed on the committed baseline: a hole in the machinery, not a verdict about the code
             lines.append('UNDECIDED (not in baseline, not claimed): %s [%s]' % (s, bad['status']))
             unclaimed.add(s)
